@@ -118,6 +118,29 @@ func isYield(s ast.Stmt) bool {
 	return ok && id.Name == "verifhook" && se.Sel.Name == "Yield"
 }
 
+func heldStmt(d int) ast.Stmt {
+	return &ast.ExprStmt{X: &ast.CallExpr{Fun: &ast.SelectorExpr{X: ast.NewIdent("verifhook"), Sel: ast.NewIdent("Held")},
+		Args: []ast.Expr{&ast.BasicLit{Kind: token.INT, Value: strconv.Itoa(d)}}}}
+}
+
+func unlockCall(c *ast.CallExpr) bool {
+	if c == nil || len(c.Args) != 0 {
+		return false
+	}
+	se, ok := c.Fun.(*ast.SelectorExpr)
+	return ok && (se.Sel.Name == "Unlock" || se.Sel.Name == "RUnlock")
+}
+
+// isUnlockCall: x.Unlock() / x.RUnlock() as a statement of its own.
+func isUnlockCall(s ast.Stmt) bool {
+	es, ok := s.(*ast.ExprStmt)
+	if !ok {
+		return false
+	}
+	c, ok := es.X.(*ast.CallExpr)
+	return ok && unlockCall(c)
+}
+
 // isLockCall: x.Lock() / x.RLock() as a statement of its own.
 func isLockCall(s ast.Stmt) bool {
 	es, ok := s.(*ast.ExprStmt)
@@ -146,7 +169,10 @@ func hasCall(n ast.Node) bool {
 	return found
 }
 
-type inst struct{ count int }
+type inst struct {
+	count     int
+	plainOnly bool
+}
 
 func (in *inst) list(stmts []ast.Stmt, atStart bool) []ast.Stmt {
 	var out []ast.Stmt
@@ -156,8 +182,9 @@ func (in *inst) list(stmts []ast.Stmt, atStart bool) []ast.Stmt {
 	}
 	for _, s := range stmts {
 		in.stmt(s)
-		// the point right before a mutex acquisition is of a kind of its own
-		if isLockCall(s) {
+		// the point right before a mutex acquisition is of a kind of its own (not in the
+		// access controllers: they are called back by the log with its lock held)
+		if isLockCall(s) && !in.plainOnly {
 			if n := len(out); n > 0 && isYield(out[n-1]) {
 				out[n-1] = yieldLockStmt()
 			} else {
@@ -165,7 +192,19 @@ func (in *inst) list(stmts []ast.Stmt, atStart bool) []ast.Stmt {
 				in.count++
 			}
 		}
+		// lock depth: +1 once acquired, -1 right before releasing (also when deferred)
+		if isUnlockCall(s) {
+			out = append(out, heldStmt(-1))
+		}
+		if ds, ok := s.(*ast.DeferStmt); ok && unlockCall(ds.Call) {
+			call := ds.Call
+			ds.Call = &ast.CallExpr{Fun: &ast.FuncLit{Type: &ast.FuncType{Params: &ast.FieldList{}},
+				Body: &ast.BlockStmt{List: []ast.Stmt{heldStmt(-1), &ast.ExprStmt{X: call}}}}}
+		}
 		out = append(out, s)
+		if isLockCall(s) {
+			out = append(out, heldStmt(1))
+		}
 		switch s.(type) {
 		case *ast.ExprStmt, *ast.AssignStmt, *ast.GoStmt, *ast.SendStmt, *ast.IncDecStmt, *ast.DeclStmt:
 			if hasCall(s) || isSend(s) {
@@ -279,7 +318,7 @@ func instrument(name string, data []byte) ([]byte, int, error) {
 	if err != nil {
 		return nil, 0, err
 	}
-	in := &inst{}
+	in := &inst{plainOnly: strings.Contains(filepath.ToSlash(name), "/accesscontroller/")}
 	for _, d := range f.Decls {
 		if fd, ok := d.(*ast.FuncDecl); ok && fd.Body != nil {
 			in.block(fd.Body, true)
